@@ -1,5 +1,5 @@
 \* termination under weak fairness (and all safety properties) on the 3x3 lattice of a one-pixel grid
-CONSTANTS S = 2  N = 1  Ks = {0, 1}  Shape = "tri"  InputPolys <- MCInputs  Impl = "reference"
+CONSTANTS S = 2  N = 1  Ks = {0, 1}  Shape = "tri"  InputPolys <- MCInputs  Impl = "code"
 SPECIFICATION MCSpec
 INVARIANTS C06_Total C09_Reject C01_NoCrossing C05_WellFormed C04_VerticesAreCentres C07C08_FunctionOfLevel C18_AreaPreserved
 PROPERTIES MCTerminates
